@@ -263,6 +263,11 @@ theorem resolve_missing_parent_error (fs : FS) (name q : String) (e : Err) (h : 
   | error e' => exact ⟨e', hall⟩
   | diverge => exact absurd rfl hr
 
+example : acyclic [("a", .good { inherits := ["gone"] })] "a" = true
+    ∧ Reach [("a", .good { inherits := ["gone"] })] "a" "gone"
+    ∧ loadRaw [("a", .good { inherits := ["gone"] })] "gone" = .error (.missing "gone") :=
+  ⟨by decide, .step (raw := { inherits := ["gone"], config := { name := "a" } }) rfl (by decide) (.refl _), rfl⟩
+
 /-! ## The repaired loader (`fixes/C18-1.diff`: visited path) -/
 
 /-- With the visited path the loader is total on **every** directory: `fs.length + 1` nested loads always suffice. -/
